@@ -299,6 +299,24 @@ fn unit_alphabet(t: &TreeSpec, max_path: usize, spellings: usize) -> Vec<UnitHdr
             }
         }
     }
+    // names with a numeric suffix that is congruent to the defined one modulo 2^8 / 2^16 (and to the
+    // default suffix 1): they designate no node
+    for n in names.iter().filter(|n| n.as_str() != "ZZZ") {
+        let (short, _, suf) = split_def(n.as_bytes()).unwrap();
+        let base: u64 = if suf.is_empty() { 1 } else { String::from_utf8_lossy(suf).parse().unwrap_or(1) };
+        for wrapped in [base + 256, base + 65536] {
+            let m = format!("{}{}", String::from_utf8_lossy(short), wrapped).into_bytes();
+            for leading_colon in [false, true] {
+                out.push(UnitHdr {
+                    hdr: Hdr::Compound {
+                        leading_colon,
+                        path: vec![m.clone()],
+                    },
+                    query: false,
+                });
+            }
+        }
+    }
     for c in ["*CM", "*cm2", "*ZZ"] {
         for query in [false, true] {
             out.push(UnitHdr {
